@@ -38,3 +38,71 @@ Theorem C02_nonvacuous :
   f_jol (fst (run empty_fs (concat [[AddFp 5 (Some ([1], 0)) (Some [2]) None; AddFp 6 (Some ([3], 0)) (Some [4]) None];
                                     [RmLink NsIso [1]]; [RmFile NsJoliet [4]]]))) = [mk [2] (KFile 5) 0].
 Proof. vm_compute. reflexivity. Qed.
+
+(* ---- opening an image: Model/Parse.v (pycdlib's OWN parser of the directory area, _walk_directories, statement by statement; plain ISO9660) composed with the writer model Model/Master.v.  For EVERY well-formed tree: the opened object is the object graph that wrote the image; nothing valid is rejected; and (for ANY image the parser accepts) two file records share an Inode iff both have data and the same extent -- every empty file gets an Inode of its own: *)
+From PV.Base Require Prim ListX.
+From PV.Gen Require GenConst GenFun.
+From PV.Model Require Codec Pack PathTable Names Master Parse.
+From PV.Proofs Require MasterPack MasterImage MasterBfs MasterWf MasterDir MasterChecker MasterProofs ParseScan ParseTrack ParseRecord ParseDir ParseDirAll ParseWalk ParseTree ParseProofs ParseShare ParseShareWalk ParseWrite ParseExamples.
+Section ParseStatementsC02.
+Import PV.Base.Prim PV.Base.ListX PV.Gen.GenConst PV.Gen.GenFun PV.Model.Codec PV.Model.Pack PV.Model.PathTable PV.Model.Names PV.Model.Master PV.Model.Parse PV.Proofs.MasterPack PV.Proofs.MasterImage PV.Proofs.MasterBfs PV.Proofs.MasterWf PV.Proofs.MasterDir PV.Proofs.MasterChecker PV.Proofs.MasterProofs PV.Proofs.ParseScan PV.Proofs.ParseTrack PV.Proofs.ParseRecord PV.Proofs.ParseDir PV.Proofs.ParseDirAll PV.Proofs.ParseWalk PV.Proofs.ParseTree PV.Proofs.ParseProofs PV.Proofs.ParseShare PV.Proofs.ParseShareWalk PV.Proofs.ParseWrite PV.Proofs.ParseExamples.
+Local Open Scope Z_scope.
+Theorem C02_open_gives_the_object_graph_that_wrote dt t img F isz : length dt = 7%nat -> ps_tree_ok t = true ->
+  master dt t = Some img -> (tsize (ms_dtree t) < F)%nat -> ms_layout_end t * BS <= isz ->
+  parse F img (ps_ptr_exts t) isz (root_extent t) (root_len t) = POk (graph_of dt t).
+Proof. first [exact (@parse_master) | apply (@parse_master) | intros; eapply (@parse_master); eassumption]. Qed.
+
+Theorem C02_open_gives_the_object_graph_from_any_larger_medium dt t img img' F isz : length dt = 7%nat -> ps_tree_ok t = true ->
+  master dt t = Some img -> ms_img_ok img' -> incl img img' ->
+  (tsize (ms_dtree t) < F)%nat -> ms_layout_end t * BS <= isz ->
+  parse F img' (ps_ptr_exts t) isz (root_extent t) (root_len t) = POk (graph_of dt t).
+Proof. first [exact (@parse_master_frame) | apply (@parse_master_frame) | intros; eapply (@parse_master_frame); eassumption]. Qed.
+
+Theorem C02_open_rejects_nothing_valid dt t img F isz : length dt = 7%nat -> ps_tree_ok t = true ->
+  master dt t = Some img -> (tsize (ms_dtree t) < F)%nat -> ms_layout_end t * BS <= isz ->
+  (forall w, parse F img (ps_ptr_exts t) isz (root_extent t) (root_len t) <> PInvalid w) /\
+  (forall w, parse F img (ps_ptr_exts t) isz (root_extent t) (root_len t) <> PUnsupported w) /\
+  parse F img (ps_ptr_exts t) isz (root_extent t) (root_len t) <> PFuel.
+Proof. first [exact (@parse_rejects_nothing_valid) | apply (@parse_rejects_nothing_valid) | intros; eapply (@parse_rejects_nothing_valid); eassumption]. Qed.
+
+Theorem C02_open_shares_inodes_iff_same_extent fuel img ptr isz re rl g :
+  parse fuel img ptr isz re rl = POk g ->
+  forall l1 c1 l2 c2 l3, ps_all_recs g = l1 ++ c1 :: l2 ++ c2 :: l3 ->
+  ps_is_dir (p_rec c1) = false -> ps_is_dir (p_rec c2) = false ->
+  (exists i1 i2, p_ino c1 = Some i1 /\ p_ino c2 = Some i2 /\
+                 (i1 < length (g_inodes g))%nat /\ (i2 < length (g_inodes g))%nat) /\
+  (p_ino c1 = p_ino c2 <->
+   data_len (p_rec c1) <> 0 /\ data_len (p_rec c2) <> 0 /\ extent (p_rec c1) = extent (p_rec c2)).
+Proof. first [exact (@parse_shares_inodes_iff_same_extent) | apply (@parse_shares_inodes_iff_same_extent) | intros; eapply (@parse_shares_inodes_iff_same_extent); eassumption]. Qed.
+
+Theorem C02_open_empty_files_get_their_own_inode fuel img ptr isz re rl g :
+  parse fuel img ptr isz re rl = POk g ->
+  forall l1 c1 l2 c2 l3, ps_all_recs g = l1 ++ c1 :: l2 ++ c2 :: l3 ->
+  ps_is_dir (p_rec c1) = false -> ps_is_dir (p_rec c2) = false ->
+  data_len (p_rec c1) = 0 \/ data_len (p_rec c2) = 0 -> p_ino c1 <> p_ino c2.
+Proof. first [exact (@parse_empty_file_own_inode) | apply (@parse_empty_file_own_inode) | intros; eapply (@parse_empty_file_own_inode); eassumption]. Qed.
+
+Theorem C02_open_infers_the_interchange_level_refuted :
+  exists dt t, ps_tree_ok t = true /\
+    forallb (fun c => match Names.check_iso9660_filename (Account.name_of c) 1 with
+                      | Names.Accept => true | _ => false end) (Account.kids_of t) = true /\
+    ~ g_level (graph_of dt t) = 1.
+Proof. first [exact (@parse_infers_level_refuted) | apply (@parse_infers_level_refuted) | intros; eapply (@parse_infers_level_refuted); eassumption]. Qed.
+
+Theorem C02_open_of_a_truncated_image_refuted :
+  exists g c, ps_ex_cut_parse = POk g /\ nth_error (ps_all_recs g) 2 = Some c /\
+    p_ino c = Some 0%nat /\ nth_error (g_inodes g) 0 = Some (24, 2000) /\
+    p_dlen c = 24 * 2048 + 5000 /\ ~ p_dlen c = 2000.
+Proof. first [exact (@parse_truncation_refuted) | apply (@parse_truncation_refuted) | intros; eapply (@parse_truncation_refuted); eassumption]. Qed.
+
+Theorem C02_parse_nonvacuous :
+  ps_tree_ok ps_ex_t = true /\
+  ps_ex_parse = POk (graph_of ps_ex_dt ps_ex_t) /\
+  map (fun c => ps_oz (p_ino c)) (ps_all_recs (graph_of ps_ex_dt ps_ex_t))
+    = [-1; -1; 0; 1; 2; -1;  -1; -1; 3; -1;  -1; -1] /\
+  g_inodes (graph_of ps_ex_dt ps_ex_t) = [(0, 0); (0, 0); (26, 5); (27, 3000)] /\
+  tree_of (graph_of ps_ex_dt ps_ex_t) (root_len ps_ex_t) = ps_ex_t /\
+  ps_write (graph_of ps_ex_dt ps_ex_t) (root_extent ps_ex_t) (root_len ps_ex_t) = master ps_ex_dt ps_ex_t.
+Proof. first [exact (@ps_example_ok) | apply (@ps_example_ok) | intros; eapply (@ps_example_ok); eassumption]. Qed.
+
+End ParseStatementsC02.
